@@ -483,7 +483,7 @@ def arg_root(term):
             t = t[1]
         elif t[0] == 'cast':
             t = t[2]
-        elif is_call(t) and t[3] in ('deref', 'deref_mut', 'as_mut', 'as_ref', 'borrow', 'borrow_mut', 'as_pin_mut') and t[2]:
+        elif is_call(t) and t[3] in ('deref', 'deref_mut', 'as_mut', 'as_ref', 'borrow', 'borrow_mut', 'as_pin_mut', 'index', 'index_mut', 'get_mut') and t[2]:
             t = t[2][0]
         else:
             return None
@@ -876,3 +876,52 @@ def status_ctors_in(crate, term, depth=0):
         return False
     term_contains(term, visit)
     return out
+
+
+# ---------------------------------------------------------------- buffers by role (not by field name)
+_ROLE_CACHE = {}
+
+
+def decode_buf_fields(tonic):
+    """(read buffer field, decompression buffer field) of StreamingInner, by role: the read buffer is the BytesMut field that
+    poll_frame appends data frames to; the other BytesMut field is the decompression scratch buffer"""
+    key = ('dec', id(tonic))
+    if key in _ROLE_CACHE:
+        return _ROLE_CACHE[key][1]
+    ad = tonic.adt('codec::decode::StreamingInner')
+    bm = [f['n'] for f in ad['variants'][0]['fields'] if re.search(r'\bBytesMut$', f['ty'])]
+    pfr = tonic.body('decode::StreamingInner::poll_frame')
+    tgt = set()
+    for bb, t in pfr.calls(name='put') + pfr.calls(name='extend_from_slice') + pfr.calls(name='put_slice'):
+        if len(t['args']) >= 2 and mentions_call(pfr.origin(t['args'][1]), name='into_data'):
+            fn_ = [f for f in field_names(pfr.origin(t['args'][0])) if f in bm]
+            tgt.update(fn_[-1:])
+    if len(tgt) != 1 or len(bm) != 2:
+        raise CheckError('UNRECOGNISED: StreamingInner has BytesMut fields %r; poll_frame appends data frames to %r (want exactly one of two)' % (bm, sorted(tgt)))
+    rb = list(tgt)[0]
+    _ROLE_CACHE[key] = (tonic, (rb, [f for f in bm if f != rb][0]))
+    return _ROLE_CACHE[key][1]
+
+
+def encode_buf_field(tonic):
+    """the output buffer field of EncodedBytes, by role: the BytesMut handed to encode_item in the position of the buffer whose
+    tail encode_item passes to finish_encoding (the frame slice)"""
+    key = ('enc', id(tonic))
+    if key in _ROLE_CACHE:
+        return _ROLE_CACHE[key][1]
+    ei = tonic.body('codec::encode::encode_item')
+    fb, ft = ei.call1(name='finish_encoding')
+    fe = tonic.body('codec::encode::finish_encoding')
+    sn = param_of_type(fe, r'^&mut \[u8\]$')
+    n = arg_root(ei.origin(ft['args'][sn - 1]))
+    if n is None:
+        raise CheckError('UNRECOGNISED: the frame slice given to finish_encoding is not cut from a parameter of encode_item')
+    pn = tonic.body(re.compile(r'codec::encode::EncodedBytes<T, U> as .*Stream>::poll_next$'))
+    cb, ct = pn.call1(name='encode_item')
+    ad = tonic.adt('codec::encode::EncodedBytes')
+    bm = [f['n'] for f in ad['variants'][0]['fields'] if re.search(r'\bBytesMut$', f['ty'])]
+    fl = [f for f in field_names(pn.origin(ct['args'][n - 1])) if f in bm]
+    if not fl:
+        raise CheckError('UNRECOGNISED: the output buffer passed to encode_item is not a BytesMut field of EncodedBytes')
+    _ROLE_CACHE[key] = (tonic, fl[-1])
+    return fl[-1]
